@@ -411,6 +411,36 @@ def owners_ok(spec):
     return bits
 
 
+def inner_owners_bad(spec):
+    """INNER rule objects (members of equivalence paths, every object of an original_rule chain) whose
+    sub-recurrences / sub-term functions / caches belong to something that is not this specification:
+    * a bound sub-recurrence (subrecs/subterms/subobjects/subsamplers, where set) must be a method of the rule this
+      specification holds for that child (an inner rule bound to ANOTHER specification's rules answers from that one);
+    * no two distinct rule objects of one specification may share one terms_cache / objects_cache object.
+    Returns a list of short descriptions (empty = fine)."""
+    top, inner = all_rule_objects(spec)
+    direct = {id(r) for r in spec.rules_dict.values()}
+    bad = []
+    for x in [t for t in top if id(t) not in direct] + inner:
+        for attr in ("subrecs", "subterms", "subobjects", "subsamplers"):
+            fs = getattr(x, attr, None)
+            if fs is None:
+                continue
+            for f, c in zip(fs, x.children):
+                if getattr(f, "__self__", None) is not spec.rules_dict.get(c):
+                    bad.append("%s of inner %s for %s" % (attr, type(x).__name__, x.comb_class))
+                    break
+    seen = {}
+    for x in top + inner:
+        for attr in ("terms_cache", "objects_cache"):
+            ch = getattr(x, attr, None)
+            if ch is None:
+                continue
+            if seen.setdefault(id(ch), x) is not x:
+                bad.append("%s shared by two rule objects (%s)" % (attr, x.comb_class))
+    return bad
+
+
 def reference_search_finds(att):
     """Independent of expand_verified: is there a productive specification for the start class in
     the universe made of the other rules of the specification and everything the pack (reverse
@@ -456,7 +486,10 @@ def impl(case):
     for x in inner0:
         reg(x)
     reg.n0 = len(reg.keep)
-    caches0 = {id(x.terms_cache) for x in top0} | {id(x.objects_cache) for x in top0}
+    # caches of the original: of its top-level rules, path members AND of every inner original_rule object
+    caches0 = {id(getattr(x, a)) for x in top0 + inner0 for a in ("terms_cache", "objects_cache")
+               if getattr(x, a, None) is not None}
+    res["inner_bad0_before"] = inner_owners_bad(spec0)
     values0 = list(spec0.rules_dict.values())
     keys0 = list(spec0.rules_dict.keys())
     snapshot = json.dumps(spec0.to_jsonable(), sort_keys=True)
@@ -530,6 +563,11 @@ def impl(case):
             facts["shared_top"] = [str(x.comb_class) for x in topn if id(x) in ids0_top or id(x) in ids0_inner]
             facts["shared_inner"] = len([1 for x in innern if id(x) in ids0_top or id(x) in ids0_inner])
             facts["shared_caches"] = len([1 for x in topn if id(x.terms_cache) in caches0 or id(x.objects_cache) in caches0])
+            # ... and the caches of the result's INNER rule objects (original_rule chains, also inside path members)
+            facts["shared_inner_caches"] = len([1 for x in innern
+                                                if id(getattr(x, "terms_cache", None)) in caches0
+                                                or id(getattr(x, "objects_cache", None)) in caches0])
+            facts["inner_bad_new"] = inner_owners_bad(new)
         else:
             facts["shared_top"], facts["shared_inner"], facts["shared_caches"] = [], 0, 0
         # validity of the result, from (parent, children, shifts) alone
@@ -554,6 +592,7 @@ def impl(case):
                                and all(a is b for a, b in zip(spec0.rules_dict.values(), values0))
                                and len(spec0.rules_dict) == len(values0))
     orig_owner = owners_ok(spec0)
+    facts["inner_bad0_after"] = inner_owners_bad(spec0)
     facts["after"] = observe(spec0)
     res["facts"] = facts
     res["out"] = [status, rounds, final_map, orig_owner, res_owner, sharing]
@@ -738,8 +777,15 @@ def _oracle(case, res):
             return ("the expanded specification shares state with the original (shallow copies): %d wrapped rule object(s) "
                     "and the caches of %d rule(s) of the result are objects of the original" % (
                         f["shared_inner"], f["shared_caches"]))
+        if res["nrounds"] and f.get("shared_inner_caches"):
+            return ("the expanded specification shares state with the original (shallow copies of INNER rules): the caches "
+                    "of %d inner rule object(s) (original_rule chains / path members) of the result are cache objects of "
+                    "the original" % f["shared_inner_caches"])
         if 0 in res["out"][4]:
             return "a rule of the expanded specification is not bound to the expanded specification's rules"
+        if f.get("inner_bad_new"):
+            return ("an INNER rule object of the expanded specification is bound to state outside the expanded "
+                    "specification: %s" % f["inner_bad_new"][:2])
         if res["nrounds"] == 0 and not f["same_object"] and res["nverified"] == 0:
             pass
     # ---- the original afterwards
@@ -749,6 +795,11 @@ def _oracle(case, res):
         return "the original specification's rules_dict changed (keys, order or rule objects)"
     if 0 in res["out"][3]:
         return "a rule of the original specification no longer takes its sub-recurrences from the original specification"
+    # (only what expand_verified CHANGED is held against it: an original that came with such an inner binding keeps it)
+    worse = [w for w in f.get("inner_bad0_after", []) if w not in res.get("inner_bad0_before", [])]
+    if worse:
+        return ("after expand_verified an INNER rule object of the original specification is bound to state outside the "
+                "original: %s" % worse[:2])
     if isinstance(before["counts"], list) and after["counts"] != before["counts"]:
         return "the original specification counts %r after expand_verified, %r before" % (after["counts"], before["counts"])
     if isinstance(before["objects"], list) and not _same_as_multisets(after["objects"], before["objects"]):
@@ -857,3 +908,8 @@ def shrink(case):
         yield {**case, "ruledb": "base"}
     if case.get("batch") not in (None, 100):
         yield {**case, "batch": 100}
+
+# strengthening of the oracles (CLAUSES.md G.1 item 10)
+RULE += (
+    " The no-sharing oracle also covers INNER rule objects (members of equivalence paths, every object of an original_rule chain): none of their terms_cache/objects_cache objects may be a cache object of the original (the original's inner caches are recorded too), no two rule objects of one specification may share a cache, and a bound sub-recurrence of an inner rule must belong to the rule its own specification holds for that child (for the original: nothing worse after expand_verified than before)."
+)
